@@ -955,6 +955,12 @@ func (s *S3Proxy) GetObjectAttributes(ctx context.Context, input *s3.GetObjectAt
 		input.VersionId = nil
 	}
 
+	if len(input.ObjectAttributes) == 0 {
+		// the caller selects the requested attributes from the result,
+		// the upstream request needs the (required) list: ask for all
+		input.ObjectAttributes = types.ObjectAttributes("").Values()
+	}
+
 	out, err := s.client.GetObjectAttributes(ctx, input)
 	if err != nil {
 		return s3response.GetObjectAttributesResponse{}, handleError(err)
